@@ -728,6 +728,10 @@ func runGoTest(pkgDir, src, name, tags string) (string, bool) {
 	if tags != "" {
 		args = append(args, "-tags", tags)
 	}
+	if strings.Contains(src, "// verif:race") {
+		// a harness that demonstrates a data race runs under the race detector
+		args = append(args, "-race")
+	}
 	args = append(args, "./"+pkgDir)
 	cmd := exec.Command("go", args...)
 	cmd.Dir = repoRoot
